@@ -1,6 +1,6 @@
 (* C05 — proofs, part 7: the combined statements of Properties_C05.v that are conjunctions of earlier lemmas. *)
 From Coq Require Import List Arith Bool PeanoNat NArith Permutation Sorted.
-From DuneV Require Import C05_Model C05_Spec C05_Proofs C05_Proofs_Comm C05_Proofs_Deliv C05_Proofs_Glue C05_Proofs_Remote C05_Proofs_Phase C05_Proofs_Dt.
+From DuneV Require Import C05_Model C05_Spec C05_Proofs C05_Proofs_Comm C05_Proofs_Deliv C05_Proofs_Glue C05_Proofs_Remote C05_Proofs_Phase C05_Proofs_Dt C05_Proofs_Dec C05_Proofs_Obj.
 Import ListNotations.
 
 Lemma PM_pairing : forall src dst sl rl, Forall2 c05_mirror sl rl ->
@@ -83,4 +83,54 @@ Lemma PM_interface_recv_is_spec : forall ign src dst S T, NoDup (map c05_ie_g S)
 Proof.
   intros ign src dst S T HS HT. rewrite P_interface_doc_recv.
   rewrite (P_pairs_agree ign (c05_contains src) (c05_contains dst) (c05_sort S) (c05_sort T)); [reflexivity| |]; apply P_sort_sorted; assumption.
+Qed.
+
+(* ------------------------------------------------------------------ from a raw decomposition (entries in any insertion order) *)
+Lemma nth_sorted_decomp : forall dec p, nth p (c05_sorted_decomp dec) ([], []) = (c05_sort (fst (nth p dec ([], []))), c05_sort (snd (nth p dec ([], [])))).
+Proof.
+  intros dec p. unfold c05_sorted_decomp.
+  change (@nil c05_ientry, @nil c05_ientry) with ((fun st : (c05_iset * c05_iset)%type => (c05_sort (fst st), c05_sort (snd st))) ([], [])) at 1.
+  rewrite map_nth. reflexivity.
+Qed.
+
+Lemma PM_decomposition_delivery : forall two ign src dst (dec : c05_decomp) (Sc Tc : nat -> c05_data) (sz : nat -> nat),
+  (forall p, NoDup (map c05_ie_g (fst (nth p dec ([], [])))) /\ NoDup (map c05_ie_g (snd (nth p dec ([], []))))) ->
+  (forall p e, In e (fst (nth p dec ([], []))) -> c05_getsize (Sc p) (c05_ie_l e) = sz (c05_ie_g e)) ->
+  (forall p e, In e (snd (nth p dec ([], []))) -> c05_getsize (Tc p) (c05_ie_l e) = sz (c05_ie_g e)) ->
+  forall (fwd add : bool) (orders : list (list nat)) (q : nat), q < length dec ->
+  let ifs := c05_dec_ifs two ign src dst dec in
+  let szs := fun (p l : nat) => c05_getsize (Sc p) l in let szd := fun (p l : nat) => c05_getsize (Tc p) l in
+  let gd := fun p : nat => if fwd then Sc p else Tc p in let sd := fun p : nat => if fwd then Tc p else Sc p in
+  Permutation (nth q orders []) (map fst (c05_recvs fwd (c05_g_cm ifs szs szd q))) ->
+  exists d' log',
+    nth q (c05_phase add fwd (map (c05_g_cm ifs szs szd) (seq 0 (length dec))) (map gd (seq 0 (length dec))) (map sd (seq 0 (length dec))) orders) C05_Stuck
+      = C05_Ok d' log' /\
+    Permutation log' (c05_g_pair_calls fwd ifs gd szs szd q) /\
+    d' = c05_apply_calls add (sd q) log' /\ c05_shape d' = c05_shape (sd q).
+Proof.
+  intros two ign src dst dec Sc Tc sz ND LS LT fwd add orders q Hq ifs szs szd gd sd HP.
+  assert (Hlen : length (c05_sorted_decomp dec) = length dec) by (unfold c05_sorted_decomp; apply map_length).
+  rewrite <- Hlen. rewrite <- Hlen in Hq.
+  apply (P_decomposition_delivery two ign src dst (c05_sorted_decomp dec)) with (sz := sz); auto.
+  - intros p. rewrite nth_sorted_decomp. simpl. apply P_sort_sorted. apply ND.
+  - intros p. rewrite nth_sorted_decomp. simpl. apply P_sort_sorted. apply ND.
+  - intros p e He. rewrite nth_sorted_decomp in He. simpl in He. apply (proj1 (sort_in _ _)) in He. apply LS. exact He.
+  - intros p e He. rewrite nth_sorted_decomp in He. simpl in He. apply (proj1 (sort_in _ _)) in He. apply LT. exact He.
+Qed.
+
+Definition ex_dec : c05_decomp :=
+  let e g l a := {| c05_ie_g := g; c05_ie_l := l; c05_ie_a := a; c05_ie_pub := true |} in
+  [ ([e 2 2 1; e 0 0 0; e 1 1 0], [e 2 2 1; e 0 0 0; e 1 1 0]); ([e 3 2 0; e 1 0 1; e 2 1 0], [e 3 2 0; e 1 0 1; e 2 1 0]) ].
+Definition ex_Sc (p : nat) : c05_data := match p with 0 => [[1]; [2]; [3]]%N | _ => [[10]; [20]; [30]]%N end.
+Lemma PM_ex_decomposition :
+  (forall p, NoDup (map c05_ie_g (fst (nth p ex_dec ([], [])))) /\ NoDup (map c05_ie_g (snd (nth p ex_dec ([], []))))) /\
+  let ifs := c05_dec_ifs false true (C05_Item 0) (C05_Item 1) ex_dec in
+  ifs 0 = [(1, ([1], [2]))] /\ ifs 1 = [(0, ([1], [0]))] /\
+  let szs := fun (p l : nat) => c05_getsize (ex_Sc p) l in
+  c05_phase true true (map (c05_g_cm ifs szs szs) (seq 0 2)) (map ex_Sc (seq 0 2)) (map ex_Sc (seq 0 2)) [[1]; [0]] =
+  [C05_Ok [[1]; [2]; [23]]%N [(2, 0, 20%N)]; C05_Ok [[12]; [20]; [30]]%N [(0, 0, 2%N)]].
+Proof.
+  split.
+  - intros [|[|[|p]]]; simpl; split; repeat (apply NoDup_cons; [simpl; intuition discriminate|]); apply NoDup_nil.
+  - vm_compute. repeat split; reflexivity.
 Qed.
